@@ -116,6 +116,10 @@ func runParser(p *parser) (err error) {
 				err = errors.New("解析算力上限: 表达式过于复杂 (parse budget exceeded)")
 				return
 			}
+			if e, ok := r.(error); ok && errors.Is(e, errMaxRuleDepth) {
+				err = errors.New("解析失败: 表达式嵌套层数过多 (expression nested too deeply)")
+				return
+			}
 			// 语法动作中的 panic 一律作为解析错误返回，不能让它逃逸到宿主程序(等同于 pigeon 的 Recover 选项)
 			err = fmt.Errorf("解析失败 (parser failure): %v", r)
 		}
